@@ -222,6 +222,39 @@ pub fn serde_check(w: &mut World, text: &TextRef, reader: Bk, artifact: Artifact
     }
 }
 
+/// C10 in binary serde formats: whatever an artifact serialises as, no deserialiser of another
+/// version or kind accepts it.
+pub fn serde_cross(w: &mut World, text: &TextRef, reader: Bk, artifact: Artifact) {
+    let Some((orig, family, origin_art)) = w.resolve_text(text) else {
+        w.stats.bump("skipped:serde-missing-text");
+        return;
+    };
+    if !(1..=4).contains(&family) {
+        return;
+    }
+    let origin_bk = crate::world::family_backend(family);
+    let form = match backend(origin_bk).serde_probe_ser(origin_art, &orig) {
+        Out::Ok(f) => f,
+        Out::Panic(p) => {
+            w.violate("C04", "panic", origin_bk, &format!("serde-{}", origin_art.name()), "binary", p);
+            return;
+        }
+        Out::Err(_) => return,
+    };
+    w.stats.evaluations += 1;
+    w.stats.bump("op:serde-cross");
+    let r = backend(reader).serde_probe_de(artifact, form.0, &form.1);
+    w.stats.distinct.insert(format!("serde-cross|{}|{}|from-v{}-{}|{}|{}", reader.name(), artifact.name(), family, origin_art.name(), if form.0 { "str" } else { "bytes" }, r.class()));
+    match r {
+        // serde works on the text layer (KeyText for keys): same version and same text header are the same type there
+        Out::Ok(shown) if family != reader.family() || origin_art.header() != artifact.header() => {
+            w.violate("C10", "cross-accepted", reader, &format!("serde-{}", artifact.name()), &format!("binary-v{family}-{}", origin_art.name()), format!("the binary serde form of a v{family} {} was deserialised as a {} {} ({})", origin_art.name(), reader.name(), artifact.name(), truncate(&shown, 60)));
+        }
+        Out::Panic(p) => w.violate("C04", "panic", reader, &format!("serde-{}", artifact.name()), "binary", p),
+        _ => {}
+    }
+}
+
 pub fn id_rel(w: &mut World, reader: Bk, a: &TextRef, b: &TextRef) {
     let (Some((s1, mut f1, mut art1)), Some((s2, mut f2, mut art2))) = (w.resolve_text(a), w.resolve_text(b)) else {
         w.stats.bump("skipped:idrel-missing");
